@@ -53,14 +53,29 @@
       the held message stays foreign; no worker invariant needed) and `projB_hidden_parts` (so `projB p` is unchanged
       up to `sets` and `stale`).  Props/C02multiD2.lean lifts it to the system step: `proj_deliver_hidden_parts_p` (set
       without messages of `p`, the one-partition worker has no set, no message of `p` held, per-partition answer:
-      `deliver` is NO step, `WRel (BRp p)` kept; no example instance of it yet).  NOT covered: `BRp` does not say that
-      a VISIBLE set holds something of `p` (needed to discharge `(s.wk w).bp.sets = []` from `delOK`); the VISIBLE case
-      (own part of the two passes, offsets from the base of `p`, the request-level error) is not started.
-  EXACTLY ONE single-step statement is open: `DeliverProj` (Props/C02multiZ.lean).  It needs the projection of
-  `BrokerProd.resp` on one partition with several partitions in the set (the two passes of handleSuccess - for which
-  Props/C02bp.lean has per-partition lemmas: `outData_loop1`, `bounces_loop1`, `loop2_part`, `handle_needs` -, the
-  request-level error for a visible set, the re-check of a held message): visible set => the `deliver` step with
-  `projV p r`, same succ / errs / ret of `p`, offsets from the base of `p`; hidden set => no step.
+      `deliver` is NO step, `WRel (BRp p)` kept).
+    * Props/C02multiD3.lean - `proj_deliver_noneOfP_p`: the `deliver` step for a set that holds NOTHING of `p`, from
+      `delOK` alone.  NOTE: "a visible set holds something of `p`" is NOT an invariant - a hand-over while a message
+      of `p` is held and none is buffered hands over the EMPTY projection (the held message goes to the new buffer) -
+      so the case is split on `hid` of `BRp`: hidden => no step; visible empty set => the `deliver` step of the
+      one-partition worker on its empty set, no actions (`resp_emptyset`).
+    * Props/C02multiY.lean - `DeliverVisProj M p` (a named OPEN Prop, narrower than `DeliverProj`: the `deliver` step
+      for a set that holds SOMETHING of `p`), `deliverProj_of_vis : DeliverVisProj M p → DeliverProj M p` (PROVED),
+      `ProjSim_partial'` / `log_order_every_partition_partial'` (as the unprimed ones, from `DeliverVisProj`);
+      and the UNCONDITIONAL form: `projOKn` = `projOK` with `delOK` restricted to exclude exactly the unfinished case
+      (`delOKn`: the delivered set holds nothing of `p`, per-partition answer, no message of `p` held),
+      `ProjSim_noneDelivered` and `log_order_every_partition_noneDelivered` (no open hypothesis).  Example `exHid`
+      (a set of partition 1 delivered while partition 0 is in flight, then a shared set appended): `projOKn 2 0`
+      holds and the theorem is instantiated; `exTwo` (first `deliver` holds both partitions) is inside `projOK`,
+      outside `projOKn`.
+  EXACTLY ONE single-step statement is open: `DeliverVisProj` (Props/C02multiY.lean) - the `deliver` step for a set that
+  holds something of `p`: both answer kinds (`.parts`, `.conn`) and the re-check of a held message of `p`.  It needs
+  the projection of `BrokerProd.resp` with several partitions in the set: the outcome-bearing actions of `p` of both
+  passes of handleSuccess equal (relabelled) those of the one-partition worker on the projected set with `projV p r`
+  (Props/C02bp.lean has the id-level versions `outData_loop1`, `bounces_loop1`, `loop2_part`, `handle_needs`; needed
+  are versions that keep retries / fin flags), the other actions are `ForeignActs p`, and a lemma for `bpActsN` on an
+  interleaving of own and foreign actions (`bpActsN_own` / `bpActsN_foreign` cover the pure lists only; offsets from
+  `base p`).  Not started.
   Also not established: that the one-partition run exhibited by `ProjSim_partial` satisfies `splitOKs` (it is a
   hypothesis of `log_order_every_partition_partial`; it depends on the hidden/visible history, which the N-state alone
   does not determine), and the full `ProjSim` (no side condition).
